@@ -176,6 +176,84 @@ theorem loop_find (K sK : Bytes) (post : List (Bytes × JsonVal)) (tail : Bytes)
         simp
 
 
+/-- `loop_find` with the scanner *before* the found location (what `forRemoval` returns): from the value of the first member, `AdvanceToLocation`'s loop stops
+(comparison 0) exactly at the value of member `K`, having passed precisely the text before it -/
+theorem loop_find2 (K sK : Bytes) (post : List (Bytes × JsonVal)) (tail : Bytes) (hK : keyScans K) :
+    ∀ (pre : List (Bytes × Bytes)) (done : Bytes) (prev : Scanner) (fuel : Nat), FlatPre K pre →
+      2 * pre.length + 1 ≤ fuel →
+      ∃ done' prev', advanceToGo (keyLoc .startOfValue K) fuel prev (startState done pre K sK post tail) =
+          .ok (0, prev', atValue done' K sK post tail) ∧
+        done'.reverse ++ (sK ++ afterVal post tail) =
+          (startState done pre K sK post tail).done.reverse ++ (startState done pre K sK post tail).rest ∧
+        (pre = [] → prev' = prev) ∧
+        (pre ≠ [] → ∃ dp kp, bytesCmp kp K = .lt ∧ prev' = atEnd dp kp ((K, .lit sK) :: post) tail ∧
+          dp.reverse ++ afterVal ((K, .lit sK) :: post) tail =
+            (startState done pre K sK post tail).done.reverse ++ (startState done pre K sK post tail).rest) := by
+  intro pre
+  induction pre with
+  | nil =>
+    intro done prev fuel _ hf
+    cases fuel with
+    | zero => omega
+    | succ f =>
+      refine ⟨done, prev, ?_, rfl, fun _ => rfl, fun h => absurd rfl h⟩
+      have hc : compareLoc (atValue done K sK post tail).path (keyLoc .startOfValue K) = 0 := by
+        simpa [atValue, keyLoc, compareTypes] using cmp_same .startOfValue .startOfValue K
+      simp only [startState, advanceToGo, hc]
+      simp
+  | cons ks pre' ih =>
+    intro done prev fuel hflat hf
+    obtain ⟨k, s⟩ := ks
+    obtain ⟨hk, hs, hlt⟩ := hflat (k, s) (by simp)
+    have hflat' : FlatPre K pre' := fun x hx => hflat x (by simp [hx])
+    match fuel, hf with
+    | f + 2, hf =>
+      have hc1 : compareLoc (atValue done k s (membersFrom pre' K sK post) tail).path (keyLoc .startOfValue K) = -1 := by
+        simpa [atValue, keyLoc] using cmp_lt .startOfValue .startOfValue k K hlt
+      have hc2 : compareLoc (atEnd (s.reverse ++ done) k (membersFrom pre' K sK post) tail).path (keyLoc .startOfValue K) = -1 := by
+        simpa [atEnd, keyLoc] using cmp_lt .endOfValue .startOfValue k K hlt
+      -- the member after (k, s): either the next flat one or K itself
+      have hnext : ∃ k2 s2 t2, membersFrom pre' K sK post = (k2, .lit s2) :: t2 ∧ keyScans k2 ∧
+          startState ((0x22 :: k2 ++ [0x22, 0x3a]).reverse ++ (0x2c :: (s.reverse ++ done))) pre' K sK post tail =
+            atValue ((0x22 :: k2 ++ [0x22, 0x3a]).reverse ++ (0x2c :: (s.reverse ++ done))) k2 s2 t2 tail := by
+        cases pre' with
+        | nil => exact ⟨K, sK, post, rfl, hK, rfl⟩
+        | cons ks2 pre'' =>
+          obtain ⟨k2, s2⟩ := ks2
+          exact ⟨k2, s2, membersFrom pre'' K sK post, rfl, (hflat' (k2, s2) (by simp)).1, rfl⟩
+      obtain ⟨k2, s2, t2, hm, hk2, hst⟩ := hnext
+      have hadv1 := adv_value done k s (membersFrom pre' K sK post) tail hs
+      have hadv2 : (atEnd (s.reverse ++ done) k (membersFrom pre' K sK post) tail).advance =
+          .ok (atValue ((0x22 :: k2 ++ [0x22, 0x3a]).reverse ++ (0x2c :: (s.reverse ++ done))) k2 s2 t2 tail) := by
+        rw [hm]; exact adv_next (s.reverse ++ done) k k2 s2 t2 tail hk2
+      obtain ⟨done', prev', hgo, htext, hp0, hp1⟩ :=
+        ih ((0x22 :: k2 ++ [0x22, 0x3a]).reverse ++ (0x2c :: (s.reverse ++ done)))
+          (atEnd (s.reverse ++ done) k (membersFrom pre' K sK post) tail) f hflat' (by simp only [List.length_cons] at hf; omega)
+      have hstart : (startState ((0x22 :: k2 ++ [0x22, 0x3a]).reverse ++ (0x2c :: (s.reverse ++ done))) pre' K sK post tail).done.reverse ++
+          (startState ((0x22 :: k2 ++ [0x22, 0x3a]).reverse ++ (0x2c :: (s.reverse ++ done))) pre' K sK post tail).rest =
+          (startState done ((k, s) :: pre') K sK post tail).done.reverse ++ (startState done ((k, s) :: pre') K sK post tail).rest := by
+        rw [hst]
+        simp only [startState, atValue, hm, afterVal_cons]
+        simp
+      refine ⟨done', prev', ?_, ?_, fun h => absurd h (by simp), fun _ => ?_⟩
+      · simp only [startState]
+        rw [advanceToGo, hc1]
+        simp only [show ((-1 : Int) < 0) from by decide, if_true, hadv1]
+        rw [advanceToGo, hc2]
+        simp only [show ((-1 : Int) < 0) from by decide, if_true, hadv2]
+        rw [← hst]
+        exact hgo
+      · rw [htext, hstart]
+      · by_cases hp : pre' = []
+        · subst hp
+          refine ⟨s.reverse ++ done, k, hlt, ?_, ?_⟩
+          · rw [hp0 rfl]; rfl
+          · simp [startState, atValue, membersFrom]
+        · obtain ⟨dp, kp, hkp, hpe, hpt⟩ := hp1 hp
+          exact ⟨dp, kp, hkp, hpe, by rw [hpt, hstart]⟩
+
+
+
 /-! ### from the beginning of the stored text -/
 
 def preText : List (Bytes × Bytes) → Bytes
@@ -351,5 +429,193 @@ theorem iReplace_flat (pre : List (Bytes × Bytes)) (K sK : Bytes) (post : List 
   constructor
   · unfold iReplace; rw [hfind]; simp only [if_true]; exact hrep
   · unfold iSet; rw [hfind]; simp only [if_true]; exact hrep
+
+
+/-! ### REMOVE of an existing member -/
+
+theorem adv_brace (k r : Bytes) (hk : keyScans k) (s0 : Bytes) (t0 : List (Bytes × JsonVal)) (tail : Bytes)
+    (hr : r = s0 ++ afterVal t0 tail) :
+    (afterBrace (0x22 :: k ++ 0x22 :: 0x3a :: r)).advance =
+      .ok (atValue ((0x22 :: k ++ [0x22, 0x3a]).reverse ++ [0x7b]) k s0 t0 tail) := by
+  subst hr
+  have hsk := hk.1 (0x3a :: (s0 ++ afterVal t0 tail))
+  simp [afterBrace, Scanner.advance, Scanner.acceptObjectKey, hsk, hk.2, Scanner.pass, Loc.push, Loc.withState, atValue, objElem]
+
+/-- the cursor `AdvanceToLocation(K, forRemoval)` returns: the scanner just before the member -/
+theorem scan_remove_cursor (pre : List (Bytes × Bytes)) (K sK : Bytes) (post : List (Bytes × JsonVal))
+    (hpre : FlatPre K pre) (hK : keyScans K) :
+    ∃ c, advanceTo (mkScanner (serialize (.obj (membersFrom pre K sK post)))) (keyLoc .startOfValue K) true = .ok (true, c) ∧
+      ((pre = [] ∧ c = afterBrace (0x22 :: K ++ 0x22 :: 0x3a :: (sK ++ afterVal post []))) ∨
+       (pre ≠ [] ∧ ∃ dp kp, bytesCmp kp K = .lt ∧ c = atEnd dp kp ((K, .lit sK) :: post) [] ∧
+          dp.reverse ++ afterVal ((K, .lit sK) :: post) [] = serialize (.obj (membersFrom pre K sK post)))) := by
+  have hfirst : ∃ k0 s0 t0, membersFrom pre K sK post = (k0, .lit s0) :: t0 ∧ keyScans k0 ∧
+      (∀ d, startState d pre K sK post [] = atValue d k0 s0 t0 []) ∧ (pre = [] → k0 = K ∧ s0 = sK ∧ t0 = post) := by
+    cases pre with
+    | nil => exact ⟨K, sK, post, rfl, hK, fun _ => rfl, fun _ => ⟨rfl, rfl, rfl⟩⟩
+    | cons ks pre' =>
+      obtain ⟨k, s⟩ := ks
+      exact ⟨k, s, membersFrom pre' K sK post, rfl, (hpre (k, s) (by simp)).1, fun _ => rfl, fun h => absurd h (by simp)⟩
+  obtain ⟨k0, s0, t0, hm, hk0, hst, hnil⟩ := hfirst
+  have hdoc : serialize (.obj (membersFrom pre K sK post)) =
+      0x7b :: (0x22 :: k0 ++ 0x22 :: 0x3a :: (s0 ++ afterVal t0 [])) := by
+    have := serObj_cons k0 (.lit s0) t0 []
+    simp only [serialize, hm]
+    simp only [serialize] at this
+    simp [this]
+  have hsplit := ser_split K (.lit sK) post [] pre
+  obtain ⟨D0, hD0⟩ : ∃ D0 : Bytes, D0 = (0x22 :: k0 ++ [0x22, 0x3a]).reverse ++ [0x7b] := ⟨_, rfl⟩
+  have hlen : 2 * pre.length + 1 ≤ 2 * (mkScanner (serialize (.obj (membersFrom pre K sK post)))).size + 14 := by
+    have h1 := pre_length_le pre
+    have h2 : (preText pre).length ≤ (serialize (.obj (membersFrom pre K sK post))).length := by
+      have := congrArg List.length hsplit
+      simp only [serialize, membersFrom, List.length_cons, List.length_append] at this ⊢
+      omega
+    simp only [mkScanner, Scanner.size, List.length_nil, Nat.zero_add]
+    omega
+  obtain ⟨done', prev', hgo, _, hp0, hp1⟩ := loop_find2 K sK post [] hK pre D0
+    (afterBrace (0x22 :: k0 ++ 0x22 :: 0x3a :: (s0 ++ afterVal t0 [])))
+    (2 * (mkScanner (serialize (.obj (membersFrom pre K sK post)))).size + 14) hpre hlen
+  have hstart : (startState D0 pre K sK post []).done.reverse ++ (startState D0 pre K sK post []).rest =
+      serialize (.obj (membersFrom pre K sK post)) := by
+    rw [hst D0, hdoc, hD0]; simp [atValue]
+  refine ⟨prev', ?_, ?_⟩
+  · unfold advanceTo
+    have hf : 2 * (mkScanner (serialize (.obj (membersFrom pre K sK post)))).size + 16 =
+        (2 * (mkScanner (serialize (.obj (membersFrom pre K sK post)))).size + 14) + 1 + 1 := by omega
+    rw [hf, advanceToGo]
+    have hc0 : compareLoc (mkScanner (serialize (.obj (membersFrom pre K sK post)))).path (keyLoc .startOfValue K) = -1 := by
+      simpa [mkScanner] using cmp_root_start K
+    simp only [hc0, show ((-1 : Int) < 0) from by decide, if_true]
+    have hadv0 : (mkScanner (serialize (.obj (membersFrom pre K sK post)))).advance =
+        .ok (afterBrace (0x22 :: k0 ++ 0x22 :: 0x3a :: (s0 ++ afterVal t0 []))) := by
+      simp [mkScanner, hdoc, Scanner.advance, rootLoc, Scanner.pass, Loc.withState, afterBrace]
+    rw [hadv0]
+    simp only []
+    rw [advanceToGo]
+    have hc1 : compareLoc (afterBrace (0x22 :: k0 ++ 0x22 :: 0x3a :: (s0 ++ afterVal t0 []))).path (keyLoc .startOfValue K) = -1 :=
+      cmp_root_objInit .startOfValue K (by simp)
+    simp only [hc1, show ((-1 : Int) < 0) from by decide, if_true]
+    rw [adv_brace k0 _ hk0 s0 t0 [] rfl, ← hD0]
+    simp only []
+    rw [← hst D0, hgo]
+    simp
+  · by_cases hp : pre = []
+    · left
+      obtain ⟨rfl, rfl, rfl⟩ := hnil hp
+      exact ⟨hp, hp0 hp⟩
+    · right
+      obtain ⟨dp, kp, hkp, hpe, hpt⟩ := hp1 hp
+      exact ⟨hp, dp, kp, hkp, hpe, by rw [hpt, hstart]⟩
+
+/-- members of a non-empty flat prefix, comma separated, no trailing comma -/
+def preCore : List (Bytes × Bytes) → Bytes
+  | [] => []
+  | [(k, s)] => 0x22 :: k ++ 0x22 :: 0x3a :: s
+  | (k, s) :: x :: r => 0x22 :: k ++ 0x22 :: 0x3a :: (s ++ 0x2c :: preCore (x :: r))
+
+theorem ser_core (t : List (Bytes × JsonVal)) (tail : Bytes) : ∀ (pre : List (Bytes × Bytes)), pre ≠ [] →
+    serObj (pre.map mem ++ t) ++ 0x7d :: tail = preCore pre ++ afterVal t tail
+  | [], h => absurd rfl h
+  | [(k, s)], _ => by
+    have := serObj_cons k (.lit s) t tail
+    simpa [mem, preCore, serialize] using this
+  | (k, s) :: x :: r, _ => by
+    have ih := ser_core t tail (x :: r) (by simp)
+    have h1 := serObj_cons k (.lit s) ((x :: r).map mem ++ t) tail
+    have h2 : afterVal ((x :: r).map mem ++ t) tail = 0x2c :: (serObj ((x :: r).map mem ++ t) ++ 0x7d :: tail) := rfl
+    simp only [List.map_cons, List.cons_append, mem] at h1 h2 ih ⊢
+    rw [h1, h2, ih]
+    simp [preCore, serialize]
+
+/-- from the previous member's end: pass `,"K":` and the value -/
+theorem advance_prev_to_end (dp kp K sK : Bytes) (post : List (Bytes × JsonVal)) (hkp : bytesCmp kp K = .lt)
+    (hK : keyScans K) (hs : valScans sK) :
+    ∃ D, advanceTo (atEnd dp kp ((K, .lit sK) :: post) []) (keyLoc .endOfValue K) false =
+      .ok (true, atEnd D K post []) := by
+  refine ⟨sK.reverse ++ ((0x22 :: K ++ [0x22, 0x3a]).reverse ++ (0x2c :: dp)), ?_⟩
+  unfold advanceTo
+  have hf : 2 * (atEnd dp kp ((K, JsonVal.lit sK) :: post) []).size + 16 =
+      (2 * (atEnd dp kp ((K, JsonVal.lit sK) :: post) []).size + 13) + 1 + 1 + 1 := by omega
+  rw [hf, advanceToGo]
+  have hc0 : compareLoc (atEnd dp kp ((K, JsonVal.lit sK) :: post) []).path (keyLoc .endOfValue K) = -1 := by
+    simpa [atEnd, keyLoc] using cmp_lt .endOfValue .endOfValue kp K hkp
+  simp only [hc0, show ((-1 : Int) < 0) from by decide, if_true, adv_next dp kp K sK post [] hK]
+  rw [advanceToGo]
+  have hc1 : compareLoc (atValue ((0x22 :: K ++ [0x22, 0x3a]).reverse ++ (0x2c :: dp)) K sK post []).path (keyLoc .endOfValue K) = -1 := by
+    simpa [atValue, keyLoc] using cmp_start_end K
+  simp only [hc1, show ((-1 : Int) < 0) from by decide, if_true, adv_value _ K sK post [] hs]
+  rw [advanceToGo]
+  have hc2 : compareLoc (atEnd (sK.reverse ++ ((0x22 :: K ++ [0x22, 0x3a]).reverse ++ (0x2c :: dp))) K post []).path (keyLoc .endOfValue K) = 0 := by
+    simpa [atEnd, keyLoc] using cmp_end_same K
+  simp only [hc2]
+  simp
+
+/-- from just after `{`: pass `"K":` and the value -/
+theorem advance_brace_to_end (K sK : Bytes) (post : List (Bytes × JsonVal)) (hK : keyScans K) (hs : valScans sK) :
+    ∃ D, advanceTo (afterBrace (0x22 :: K ++ 0x22 :: 0x3a :: (sK ++ afterVal post []))) (keyLoc .endOfValue K) false =
+      .ok (true, atEnd D K post []) := by
+  refine ⟨sK.reverse ++ ((0x22 :: K ++ [0x22, 0x3a]).reverse ++ [0x7b]), ?_⟩
+  unfold advanceTo
+  have hf : 2 * (afterBrace (0x22 :: K ++ 0x22 :: 0x3a :: (sK ++ afterVal post []))).size + 16 =
+      (2 * (afterBrace (0x22 :: K ++ 0x22 :: 0x3a :: (sK ++ afterVal post []))).size + 13) + 1 + 1 + 1 := by omega
+  rw [hf, advanceToGo]
+  have hc0 : compareLoc (afterBrace (0x22 :: K ++ 0x22 :: 0x3a :: (sK ++ afterVal post []))).path (keyLoc .endOfValue K) = -1 :=
+    cmp_root_objInit .endOfValue K (by simp)
+  simp only [hc0, show ((-1 : Int) < 0) from by decide, if_true, adv_brace K _ hK sK post [] rfl]
+  rw [advanceToGo]
+  have hc1 : compareLoc (atValue ((0x22 :: K ++ [0x22, 0x3a]).reverse ++ [0x7b]) K sK post []).path (keyLoc .endOfValue K) = -1 := by
+    simpa [atValue, keyLoc] using cmp_start_end K
+  simp only [hc1, show ((-1 : Int) < 0) from by decide, if_true, adv_value _ K sK post [] hs]
+  rw [advanceToGo]
+  have hc2 : compareLoc (atEnd (sK.reverse ++ ((0x22 :: K ++ [0x22, 0x3a]).reverse ++ [0x7b])) K post []).path (keyLoc .endOfValue K) = 0 := by
+    simpa [atEnd, keyLoc] using cmp_end_same K
+  simp only [hc2]
+  simp
+
+
+theorem serialize_obj_cons (kvs : List (Bytes × JsonVal)) :
+    serialize (.obj kvs) = 0x7b :: (serObj kvs ++ [0x7d]) := by simp [serialize]
+
+/-- **remove of an existing member** (first, middle or last): the splice deletes the member and exactly
+one adjacent comma -/
+theorem iRemove_flat (pre : List (Bytes × Bytes)) (K sK : Bytes) (post : List (Bytes × JsonVal))
+    (hpre : FlatPre K pre) (hK : keyScans K) (hs : valScans sK) :
+    iRemove (serialize (.obj (membersFrom pre K sK post))) (keyLoc .startOfValue K) =
+      .ok (serialize (.obj (pre.map mem ++ post)), true) := by
+  obtain ⟨c, hcur, hcase⟩ := scan_remove_cursor pre K sK post hpre hK
+  unfold iRemove
+  rw [hcur]
+  have hkl : (keyLoc .startOfValue K).withState .endOfValue = keyLoc .endOfValue K := rfl
+  rcases hcase with ⟨hp, rfl⟩ | ⟨hp, dp, kp, hkp, rfl, htext⟩
+  · -- first member: the cursor stands just after `{`
+    subst hp
+    obtain ⟨D, hadv⟩ := advance_brace_to_end K sK post hK hs
+    simp only [hkl, hadv]
+    cases post with
+    | nil =>
+      simp [afterBrace, atEnd, afterVal, Scanner.cur, prefixOf, restOf, doneTail, serialize, serObj]
+    | cons kv t =>
+      have hser : serialize (.obj (([] : List (Bytes × Bytes)).map mem ++ kv :: t)) = 0x7b :: (serObj (kv :: t) ++ [0x7d]) := by
+        simp [serialize]
+      rw [hser]
+      simp [afterBrace, atEnd, afterVal, Scanner.cur, Scanner.pass, prefixOf, restOf, doneTail]
+      cases hh : serObj (kv :: t) ++ [0x7d] with
+      | nil => simp at hh
+      | cons a r => simp [doneTail]
+  · -- a later member: the cursor stands at the end of the previous member's value
+    obtain ⟨D, hadv⟩ := advance_prev_to_end dp kp K sK post hkp hK hs
+    simp only [hkl, hadv]
+    have hni : ¬ ((atEnd dp kp ((K, JsonVal.lit sK) :: post) []).path.st = .objectInitial ∨
+        (atEnd dp kp ((K, JsonVal.lit sK) :: post) []).path.st = .arrayInitial) := by simp [atEnd]
+    simp only [hni, false_and, if_false]
+    -- the text: both documents share everything up to the previous member's value
+    have h1 := ser_core ((K, .lit sK) :: post) [] pre hp
+    have h2 := ser_core post [] pre hp
+    have hdoc : serialize (.obj (membersFrom pre K sK post)) = (0x7b :: preCore pre) ++ afterVal ((K, .lit sK) :: post) [] := by
+      simp only [serialize_obj_cons, membersFrom]; simp [h1]
+    have hdp : dp.reverse = 0x7b :: preCore pre := List.append_cancel_right (htext.trans hdoc)
+    have hnew : serialize (.obj (pre.map mem ++ post)) = (0x7b :: preCore pre) ++ afterVal post [] := by
+      simp only [serialize_obj_cons]; simp [h2]
+    simp only [prefixOf, restOf, atEnd, hdp, hnew, doneTail_afterVal]
 
 end DoltVerif.JsonDoc
